@@ -370,7 +370,14 @@ func (c *textCase) run() (res textRun) {
 		}
 	}
 	var pc uintptr
-	if c.AddSource && !c.ZeroPC {
+	if c.AddSource && !c.ZeroPC && len(c.Msg)%3 == 1 {
+		// a call site whose file name needs quoting (//line directives, see oddpc.go)
+		odd := oddPCs()
+		pc = odd[(len(c.Msg)+len(c.Attrs))%len(odd)]
+		f, _ := runtime.CallersFrames([]uintptr{pc}).Next()
+		res.File, res.LineNo = f.File, strconv.Itoa(f.Line)
+		res.WantSrc = lastTwo(f.File) + ":" + strconv.Itoa(f.Line)
+	} else if c.AddSource && !c.ZeroPC {
 		pc = textPC()
 		_, file, line, _ := runtime.Caller(0)
 		line-- // textPC() was called on the previous line
